@@ -64,6 +64,11 @@ def cases(ctx):
         for m, d in [(3, 2), (3, mem // 12), (3, mem // 6 + 2), (3, mem), (10, mem // 40), (10, mem // 10 + 3), (10, mem)]:
             if d > 0:
                 out.append(("locals", (1000, 500, mem), locals_prog(m, d), {"locals": m, "depth": d, "limit": mem}))
+    # the memory pointer moves in steps of a frame: sweep the limit over more than one frame size so that for some limit
+    # the pointer lands EXACTLY on it (and exactly one below / above it)
+    for m in ([3, 5] + ([1, 2, 8] if thorough else [])):
+        for mem in range(40, 40 + 2 * (m + 3) + 2):
+            out.append(("memsweep", (1000, 100000, mem), locals_prog(m, 100000), {"locals": m, "limit": mem, "sweep": 1}))
     for k in ([300, 5000] + ([50000] if thorough else [])):
         for body in LOOP_BODIES:
             out.append(("loop", (100, 500, 10000), loop_prog(k, body), {"iterations": k}))
@@ -126,6 +131,8 @@ def run(ctx):
                     want = "OK"
             elif kind in ("loop", "soak"):
                 want = "OK"
+            elif kind == "memsweep":
+                want = "OutOfMemoryError"
             got = "OK" if vm["cls"] == "OK" else vm.get("kind")
             if want and got != want:
                 ctx.violation(dict(rep, vm=vm["raw"][:400]), f"C09 {kind} {info} under {lim}: expected {want}, the VM answered {got}")
